@@ -14,9 +14,22 @@ QUERY_MODS = ["with_query", "extend_query", "update_query"]
 
 
 # ----------------------------------------------------------------------
+class IntSub(int):
+    """A plain int subclass (not an enum): hashes and compares like its value."""
+
+
+class FloatSub(float):
+    pass
+
+
 def enc_arg(x):
     """Python value -> JSON-able spec."""
     from multidict import MultiDict
+
+    if type(x) is IntSub:
+        return {"t": "intsub", "v": str(int(x))}
+    if type(x) is FloatSub:
+        return {"t": "floatsub", "v": repr(float(x))}
 
     if x is None or isinstance(x, (bool, str)):
         return x
@@ -48,6 +61,10 @@ def dec_arg(x):
         t = x["t"]
         if t == "int":
             return int(x["v"])
+        if t == "intsub":
+            return IntSub(x["v"])
+        if t == "floatsub":
+            return FloatSub(x["v"])
         if t == "float":
             return float(x["v"])
         if t == "bytes":
@@ -256,7 +273,8 @@ class OpGen:
             m = r.choice(TEXT_MODS)
             t = self.text(4)
             if m == "with_suffix":
-                t = "." + t if r.random() < 0.8 else t
+                k2 = r.random()
+                t = "" if k2 < 0.2 else ("." + t if k2 < 0.85 else t)
             if m in ("with_user", "with_password", "with_fragment") and r.random() < 0.1:
                 t = None
             op = {"op": "mod", "base": base, "m": m, "args": [t]}
